@@ -69,6 +69,18 @@ def judge(case, c2mod, ctx=None):
         c2data = c2mod.C2Data(**payload)
         ref_prog = prog
         base_uri = req["uri"]
+    elif form == "implicit":
+        # profile-order steps of one block; the BUILD step is supplied through the constructor argument
+        prog = [tuple(s) for s in case["prog"]]
+        steps = _to_lib_steps(prog)
+        snapshot = list(steps)
+        try:
+            t = c2mod.HttpDataTransform(steps, build=names[0])
+        except Exception as e:  # noqa: BLE001
+            return "construct.exception", f"{type(e).__name__}: {e}"
+        c2data = c2mod.C2Data(**payload)
+        ref_prog = [("BUILD", names[0])] + prog
+        base_uri = req["uri"]
     else:
         rprog = [tuple(s) for s in case["prog"]]
         steps = list(rprog)
@@ -262,7 +274,13 @@ def run_shard(shard, ctx):
     for i in range(shard["n"]):
         if ctx.out_of_time():
             break
-        if rng.random() < 0.8:
+        r0 = rng.random()
+        if r0 < 0.1:
+            name = rng.choice(["metadata", "id", "output"])
+            full = gen_client_prog(rng, [name])
+            prog = [st for st in full if st[0] not in ("BUILD",) + tuple(codec.STATIC)]
+            case = {"form": "implicit", "prog": prog, "c2": {name: gen_payload(rng, prog)}, "req": gen_req(rng, "client"), "seed": rng.getrandbits(32)}
+        elif r0 < 0.8:
             kinds = rng.choice([["metadata"], ["id", "output"], ["output", "id"], ["output"], ["metadata", "id", "output"]])
             prog = gen_client_prog(rng, kinds)
             case = {"form": "client", "prog": prog, "c2": {k: gen_payload(rng, prog) for k in kinds}, "req": gen_req(rng, "client"), "seed": rng.getrandbits(32)}
